@@ -3,11 +3,14 @@ package store
 import (
 	"context"
 	"errors"
+	"os"
 	"path/filepath"
 
 	"github.com/ipld/go-storethehash/internal/vrt"
 	"github.com/ipld/go-storethehash/store/types"
 )
+
+var optionalCoverH17 = []string{"h17-close-returned-the-flush-error"}
 
 func openBG(dir string, c vcfg) (*Store, error) {
 	// background GC enabled with a time limit: timers are virtual, they fire when the
@@ -26,7 +29,26 @@ func Verif_H17Close() {
 	keys := [][]byte{{0x00, 4, 0x5A, 0x01, 0x02, 0x03}, {0x00, 4, 0x5A, 0x01, 0x07, 0x08}}
 	g0, f0 := vrt.Goroutines(), vrt.OpenFiles()
 
-	switch vrt.Choose("scenario", 3) {
+	switch vrt.Choose("scenario", 4) {
+	case 3: // Close whose final flush fails (the next primary file's name is taken)
+		s, err := openBG(dir, c)
+		vrt.Assert(err == nil, "open-no-error")
+		if err != nil {
+			return
+		}
+		s.Start()
+		vrt.Assert(s.Put(keys[0], []byte{1}) == nil, "put-no-error")
+		vrt.Assert(s.Flush() == nil, "flush-no-error")
+		vrt.Assert(s.Put(keys[1], []byte{2}) == nil, "put-no-error")
+		// with a limit of 1 byte per file the pending record belongs into d.1; a stray file
+		// of that name makes the primary refuse to roll over
+		vrt.Assert(os.WriteFile(filepath.Join(dir, "d.1"), []byte{0}, 0o644) == nil, "setup-stray-file")
+		cerr := s.Close()
+		if cerr != nil {
+			vrt.Cover(optionalCoverH17[0])
+		}
+		checkQuiet(dir, g0, f0, "after-failing-close")
+		vrt.Cover("h17-close-with-failing-flush")
 	case 0: // Close racing with background activity
 		s, err := openBG(dir, c)
 		vrt.Assert(err == nil, "open-no-error")
